@@ -9,7 +9,7 @@ script) is the run in which the OS never splits a transfer.  `noHard os.sc` = th
 counts and `EINTR`s.  Statement form: `run loop script = run loop OS.full` on everything the caller can
 observe, plus "success ⇒ the whole transfer happened" for *arbitrary* scripts (hard errors included).
 -/
-import Sqfs.Proofs.IoXfrm
+import Sqfs.Proofs.C12TarStream
 namespace Sqfs.C12
 open Sqfs.IoLoops Sqfs.IoLoops.Spec
 
@@ -80,46 +80,62 @@ theorem write_at_never_short (file : Bytes) (sizeField off : Nat) (data : Bytes)
   | oob => simp
   | compressor => simp
   | fuel => simp at h1
+  | corrupted => simp
+  | nullDeref => simp
 
 /-! ### the file ostream: `write_all`, `realize_sparse`, `file_append`, `file_flush` -/
 
-/-- For every script of short counts and `EINTR`s and every sequence of `append` / hole / `flush` calls: no call
-fails; the bytes in the file followed by the pending hole are the concatenation of everything appended; the
-`SQFS_FILE_OPEN_NO_SPARSE` flag does not change them; and after a final `flush` the file itself holds them. -/
+/-- For every script of short counts and `EINTR`s and every sequence of `append` / hole / `flush` calls, from
+every state of the stream: no call fails; the complete state of the stream and of the file behind it
+(`out`, `size`, `sparse_count`, descriptor position) is the one the closed form `stepRes` gives — a function of
+the calls alone, so it is the state of the run in which every `write` completes in full; the bytes in the file
+followed by the zeros up to the descriptor position and the pending hole (`logical`) are the concatenation of
+everything appended — whether holes are realised by zero-writes (`SQFS_FILE_OPEN_NO_SPARSE`) or by
+`lseek`+`ftruncate`; and when no `ftruncate` has failed before (`skew = 0`: every stream that has not seen a
+hard error), after a final `flush` the file itself holds them. -/
 theorem write_all_spec : ∀ (ops : List OOp) (st : OStream) (idx : Nat) (os : OS), noHard os.sc = true →
-    ∃ st' os', runOOps idx st ops os = ((.ok, idx + ops.length), st', os') ∧ noHard os'.sc = true ∧
-      logical st' = logical st ++ (ops.map oopBytes).flatten ∧
-      (ops.getLast? = some .flush → st'.out = logical st ++ (ops.map oopBytes).flatten) := by
+    ∃ os', runOOps idx st ops os = ((.ok, idx + ops.length), ops.foldl stepRes st, os') ∧ noHard os'.sc = true ∧
+      runOOps idx st ops OS.full = ((.ok, idx + ops.length), ops.foldl stepRes st, (runOOps idx st ops OS.full).2.2) ∧
+      logical (ops.foldl stepRes st) = logical st ++ (ops.map oopBytes).flatten ∧
+      (ops.foldl stepRes st).noSparse = st.noSparse ∧
+      (st.skew = 0 → (ops.foldl stepRes st).skew = 0) ∧
+      (st.skew = 0 → ops.getLast? = some .flush →
+        (ops.foldl stepRes st).out = logical st ++ (ops.map oopBytes).flatten) := by
   intro ops
   induction ops with
-  | nil => intro st idx os hn; exact ⟨st, os, rfl, hn, by simp, by simp⟩
+  | nil => intro st idx os hn; exact ⟨os, rfl, hn, rfl, by simp, rfl, fun h => h, by simp⟩
   | cons op ops ih =>
     intro st idx os hn
-    obtain ⟨st1, os1, h1, hn1, hl1, _, hfl⟩ := ostreamStep_spec st op os hn
-    obtain ⟨st2, os2, h2, hn2, hl2, hflush⟩ := ih st1 (idx + 1) os1 hn1
-    refine ⟨st2, os2, ?_, hn2, ?_, ?_⟩
-    · simp only [runOOps, h1, h2, List.length_cons]
-      have : idx + 1 + ops.length = idx + (ops.length + 1) := by omega
-      rw [this]
-    · rw [hl2, hl1]; simp
-    · intro hlast
+    obtain ⟨os1, h1, hn1⟩ := ostreamStep_det st op os hn
+    obtain ⟨osf, h1f, hnf⟩ := ostreamStep_det st op OS.full (by simp [noHard, OS.full])
+    obtain ⟨f1, f2, f3, f4⟩ := stepRes_facts st op
+    obtain ⟨os2, h2, hn2, _, hl2, hns2, hk2, hflush⟩ := ih (stepRes st op) (idx + 1) os1 hn1
+    obtain ⟨_, h2f, _, _⟩ := ih (stepRes st op) (idx + 1) osf hnf
+    have hidx : idx + 1 + ops.length = idx + (ops.length + 1) := by omega
+    refine ⟨os2, ?_, hn2, ?_, ?_, by rw [List.foldl_cons, hns2, f2], fun h => hk2 (f3 h), ?_⟩
+    · simp only [runOOps, h1, h2, List.length_cons, List.foldl_cons, hidx]
+    · simp only [runOOps, h1f, h2f, List.length_cons, List.foldl_cons, hidx]
+    · rw [List.foldl_cons, hl2, f1]; simp
+    · intro hk hlast
+      rw [List.foldl_cons]
       cases ops with
       | nil =>
         simp only [List.getLast?_singleton, Option.some.injEq] at hlast
-        simp only [runOOps, Prod.mk.injEq] at h2
-        obtain ⟨_, rfl, _⟩ := h2
-        have := hfl hlast
-        have hl : logical st1 = st1.out := by simp [logical, this]
-        rw [← hl, hl1]; simp
+        have hout := (f4 hlast).2 hk
+        subst hlast
+        simp only [List.foldl_nil, hout, List.map_cons, List.map_nil, List.flatten_cons,
+          List.flatten_nil, oopBytes, List.append_nil]
       | cons op2 ops2 =>
         have : (op2 :: ops2).getLast? = some OOp.flush := by simpa using hlast
-        rw [hflush this, hl1]; simp
+        rw [hflush (f3 hk) this, f1]; simp
 
-/-- For *every* script: no call runs out of fuel, and if no call reports an error then everything appended is in
-the file / the pending hole — a short `write` is never silently accepted. -/
+/-- For *every* script (hard errors and zero returns included): no call runs out of fuel, and if no call reports
+an error then the stream and the file are in exactly the state of the unperturbed run (`stepRes`), so everything
+appended is in the file / the pending hole — a short `write` is never silently accepted. -/
 theorem write_all_never_short : ∀ (ops : List OOp) (st : OStream) (idx : Nat) (os : OS),
     (runOOps idx st ops os).1.1 ≠ .fuel ∧
     ((runOOps idx st ops os).1.1 = .ok →
+      (runOOps idx st ops os).2.1 = ops.foldl stepRes st ∧
       logical (runOOps idx st ops os).2.1 = logical st ++ (ops.map oopBytes).flatten) := by
   intro ops
   induction ops with
@@ -133,13 +149,18 @@ theorem write_all_never_short : ∀ (ops : List OOp) (st : OStream) (idx : Nat) 
     cases e with
     | ok =>
       simp only []
+      have hst : st1 = stepRes st op := h3 rfl
       obtain ⟨h4, h5⟩ := ih st1 (idx + 1) os1
       refine ⟨h4, fun hok => ?_⟩
-      rw [h5 hok, (h3 rfl).1]; simp
+      obtain ⟨h6, h7⟩ := h5 hok
+      refine ⟨by rw [h6, hst, List.foldl_cons], ?_⟩
+      rw [h7, hst, (stepRes_facts st op).1]; simp
     | io => simp
     | oob => simp
     | compressor => simp
+    | corrupted => simp
     | fuel => simp at h1
+    | nullDeref => simp
 
 /-! ### the buffered file istream and its clients -/
 
@@ -179,59 +200,85 @@ theorem client_history_script_independent (B : Nat) (hB : 0 < B) (data : Bytes) 
 /-- **`read_skip_splice_spec`.** From any stream state `s` that represents position `t.pos` of the file
 (`Rel`, `Iv`: every state a client can reach), for every script of short counts and `EINTR`s, every buffer size:
 `sqfs_istream_read` returns exactly the next `min size 0x7FFFFFFF` bytes of the file (fewer only at its end),
-`sqfs_istream_skip` succeeds, and `sqfs_istream_splice` reports the count of bytes that were left and has
-appended exactly those bytes to the output stream. -/
+`sqfs_istream_skip` succeeds **iff** at least `size` bytes are left and otherwise fails with
+`SQFS_ERROR_OUT_OF_BOUNDS` having consumed everything (`skipRc`: a function of the sizes alone, not of the script),
+and `sqfs_istream_splice` reports the count of bytes that were left and has appended exactly those bytes to the
+output stream; **and afterwards** the stream again represents a position of
+the file — the old one plus the number of bytes consumed — so the next client call starts from a state that
+depends on the script in nothing a client can observe. -/
 theorem read_skip_splice_spec (B : Nat) (hB : 0 < B) (data : Bytes) (s : IStream) (t : Ideal) (hr : Rel B data s t)
-    (hi : Iv data t) (o : OStream) (ho : o.sparse = 0) (size : Nat) (os : OS) (h : noHard os.sc = true) :
+    (hi : Iv data t) (o : OStream) (ho : o.sparse = 0) (hk : o.skew = 0) (size : Nat) (os : OS)
+    (h : noHard os.sc = true) :
     (istreamRead (fileStream B) s size os).1 = .n (slice data t.pos (min size 0x7FFFFFFF)) ∧
-    (istreamSkip (fileStream B) s size os).1 = .ok ∧
+    (istreamSkip (fileStream B) s size os).1 = (if size ≤ data.length - t.pos then .ok else .oob) ∧
     (istreamSplice (fileStream B) s o size os).1 = (.ok, min (min size 0x7FFFFFFF) (data.length - t.pos)) ∧
-    (istreamSplice (fileStream B) s o size os).2.2.1.out = o.out ++ slice data t.pos (min size 0x7FFFFFFF) := by
+    (istreamSplice (fileStream B) s o size os).2.2.1.out = o.out ++ slice data t.pos (min size 0x7FFFFFFF) ∧
+    (∃ t', Rel B data (istreamRead (fileStream B) s size os).2.1 t' ∧ Iv data t' ∧
+      t'.pos = t.pos + min (min size 0x7FFFFFFF) (data.length - t.pos)) ∧
+    (∃ t', Rel B data (istreamSkip (fileStream B) s size os).2.1 t' ∧ Iv data t' ∧
+      t'.pos = t.pos + min size (data.length - t.pos)) ∧
+    (∃ t', Rel B data (istreamSplice (fileStream B) s o size os).2.1 t' ∧ Iv data t' ∧
+      t'.pos = t.pos + min (min size 0x7FFFFFFF) (data.length - t.pos)) := by
   have hf : noHard OS.full.sc = true := by simp [noHard, OS.full]
   have hsz : (if size > 0x7FFFFFFF then 0x7FFFFFFF else size) = min size 0x7FFFFFFF := by
     split <;> omega
-  obtain ⟨_, _, h1, _⟩ := istreamReadLoop_sim (file_sim B hB data)
+  obtain ⟨s1, _, h1, r1, _⟩ := istreamReadLoop_sim (file_sim B hB data)
     (min size 0x7FFFFFFF + 1) s t (min size 0x7FFFFFFF) [] os OS.full hr h hf
-  obtain ⟨_, c1, _, _⟩ := idealRead_closed B hB data (min size 0x7FFFFFFF + 1) t (min size 0x7FFFFFFF) [] OS.full hi
+  obtain ⟨t1, c1, p1, i1⟩ := idealRead_closed B hB data (min size 0x7FFFFFFF + 1) t (min size 0x7FFFFFFF) [] OS.full hi
     (Nat.lt_succ_self _)
-  obtain ⟨_, _, h2, _⟩ := istreamSkipLoop_sim (file_sim B hB data) (size + 1) s t size os OS.full hr h hf
-  obtain ⟨_, c2, _, _⟩ := idealSkip_closed B hB data (size + 1) t size OS.full hi (Nat.lt_succ_self _)
-  obtain ⟨_, _, h3, _⟩ := istreamSpliceLoop_sim (file_sim B hB data)
+  obtain ⟨s2, _, h2, r2, _⟩ := istreamSkipLoop_sim (file_sim B hB data) (size + 1) s t size os OS.full hr h hf
+  obtain ⟨t2, c2, p2, i2⟩ := idealSkip_closed B hB data (size + 1) t size OS.full hi (Nat.lt_succ_self _)
+  obtain ⟨s3, _, h3, r3, _⟩ := istreamSpliceLoop_sim (file_sim B hB data)
     (min size 0x7FFFFFFF + 1) s t o (min size 0x7FFFFFFF) 0 os OS.full hr h hf
-  obtain ⟨_, o', _, c3, co, _⟩ := idealSplice_closed B hB data (min size 0x7FFFFFFF + 1) t o (min size 0x7FFFFFFF) 0 OS.full hi
-    (Nat.lt_succ_self _) ho hf
-  simp only [istreamRead, istreamSkip, istreamSplice, hsz, h1, c1, h2, c2, h3, c3, List.nil_append, Nat.zero_add, co,
-    and_self]
+  obtain ⟨t3, o', _, c3, co, _, p3, i3, _⟩ := idealSplice_closed B hB data (min size 0x7FFFFFFF + 1) t o (min size 0x7FFFFFFF) 0 OS.full hi
+    (Nat.lt_succ_self _) ho hk hf
+  rw [c1] at h1 r1
+  rw [c2] at h2 r2
+  rw [c3] at h3 r3
+  simp only [istreamRead, istreamSkip, istreamSplice, hsz, h1, h2, h3, List.nil_append, Nat.zero_add, co, true_and, skipRc]
+  exact ⟨⟨t1, r1, i1, p1⟩, ⟨t2, r2, i2, p2⟩, ⟨t3, r3, i3, p3⟩⟩
 
 /-- **`get_line_chunking_independent`.** From any reachable stream state, with any pending partial line `acc` and
 any flags, for every script of short counts and `EINTR`s and **every buffer size**: `istream_get_line` returns
 the line that the byte-at-a-time scanner `Spec.nextLineAux` finds in the bytes that are left (split at '\n',
 one '\r' dropped, trimmed per the flags, empty lines counted and skipped with `SKIP_EMPTY`, an unterminated last
-line returned, then end-of-file) and the same line counter.  Neither `B` nor the script occurs on the right-hand
-side: the lines are the same for every chunking. -/
+line returned, then end-of-file) and the same line counter, **and leaves the stream at the position behind
+what the scanner consumed**.  Neither `B` nor the script occurs on the right-hand side: the lines are the same
+for every chunking. -/
 theorem get_line_chunking_independent (B : Nat) (hB : 0 < B) (data : Bytes) (s : IStream) (t : Ideal)
     (hr : Rel B data s t) (hi : Iv data t) (flags : Nat) (acc : Bytes) (ln : Nat) (os : OS) (h : noHard os.sc = true) :
     (getLineLoop (fileStream B) flags ((fileStream B).bound s + 2) s acc ln os).1 =
       lineRetOf (nextLineAux flags acc (data.drop t.pos) ln).1 ∧
     (getLineLoop (fileStream B) flags ((fileStream B).bound s + 2) s acc ln os).2.2.1 =
-      (nextLineAux flags acc (data.drop t.pos) ln).2.2 := by
+      (nextLineAux flags acc (data.drop t.pos) ln).2.2 ∧
+    (∃ t', Rel B data (getLineLoop (fileStream B) flags ((fileStream B).bound s + 2) s acc ln os).2.1 t' ∧
+      Iv data t' ∧ data.drop t'.pos = (nextLineAux flags acc (data.drop t.pos) ln).2.1) := by
   have hb := (file_sim B hB data).bound s t hr
-  obtain ⟨_, _, h1, _⟩ := getLineLoop_sim (file_sim B hB data) flags ((fileStream B).bound s + 2) s t acc ln os OS.full hr h
+  obtain ⟨s1, _, h1, r1, _⟩ := getLineLoop_sim (file_sim B hB data) flags ((fileStream B).bound s + 2) s t acc ln os OS.full hr h
     (by simp [noHard, OS.full])
-  obtain ⟨_, c1, _, _⟩ := idealGetLine_closed B hB data flags ((fileStream B).bound s + 2) t acc ln OS.full hi
+  obtain ⟨t1, c1, d1, i1⟩ := idealGetLine_closed B hB data flags ((fileStream B).bound s + 2) t acc ln OS.full hi
     (by rw [hb]; simp [idealStream])
-  simp only [h1, c1, and_self]
+  rw [c1] at h1 r1
+  simp only [h1, true_and]
+  exact ⟨t1, r1, i1, d1⟩
 
 /-- **`record_to_memory_spec`.** For every script of short counts and `EINTR`s and every buffer size,
-`record_to_memory(size)` returns exactly the next `size` bytes of the file, or NULL when fewer are left
-(or `size` exceeds what `sqfs_istream_read` transfers in one call). -/
+`record_to_memory(size)` returns exactly the next `size` bytes of the file, or NULL when fewer are left, when the
+padding to the next multiple of 512 is cut short (`sqfs_istream_skip` then fails), or when `size` exceeds what
+`sqfs_istream_read` transfers in one call; **and it leaves the stream behind the record and its padding**
+(`recordEnd`; as far as the data reaches). -/
 theorem record_to_memory_spec (B : Nat) (hB : 0 < B) (data : Bytes) (s : IStream) (t : Ideal) (hr : Rel B data s t)
     (hi : Iv data t) (size : Nat) (os : OS) (h : noHard os.sc = true) :
     (recordToMemory (fileStream B) s size os).1 =
-      (if t.pos + size ≤ data.length ∧ size ≤ 0x7FFFFFFF then some (slice data t.pos size) else none) := by
-  obtain ⟨_, _, h1, _⟩ := recordToMemory_sim (file_sim B hB data) s t size os OS.full hr h (by simp [noHard, OS.full])
-  obtain ⟨c1, _⟩ := idealRecord_closed B hB data t size OS.full hi
-  simp only [h1, c1]
+      (if t.pos + size ≤ data.length ∧ size ≤ 0x7FFFFFFF ∧
+          (size % 512 = 0 ∨ t.pos + size + (512 - size % 512) ≤ data.length)
+        then some (slice data t.pos size) else none) ∧
+    (∃ t', Rel B data (recordToMemory (fileStream B) s size os).2.1 t' ∧ Iv data t' ∧
+      t'.pos = recordEnd data.length t.pos size) := by
+  obtain ⟨s1, _, h1, r1, _⟩ := recordToMemory_sim (file_sim B hB data) s t size os OS.full hr h (by simp [noHard, OS.full])
+  obtain ⟨c1, _, i1, p1⟩ := idealRecord_closed B hB data t size OS.full hi
+  simp only [h1, c1, true_and]
+  exact ⟨_, r1, i1, p1⟩
 
 /-! ### the transforming streams of lib/xfrm (for every codec) -/
 
@@ -266,6 +313,86 @@ theorem xfrm_ostream_script_independent {κ : Type} (C : Codec κ) (BX limit : N
     (xRunOOps C BX limit 0 x ops os).2.1 = (xRunOOps C BX limit 0 x ops OS.full).2.1 :=
   xRunOOps_indep C BX limit ops 0 x os OS.full h (by simp [noHard, OS.full])
 
+/-! ### the member stream of the tar iterator (lib/tar/src/iterator.c) -/
+
+/-- **`tar_member_stream_chunking_independent`.** The stream tar2sqfs reads the content of an archive member
+through (`tar_istream_t`: it calls `get_buffered_data`/`advance_buffer` of the archive stream directly, clamps the
+window to the current data region, synthesises the holes of a GNU sparse member, keeps `record_size`/`offset`
+of the iterator up to date) on top of the file istream: from every pair of related states (same iterator fields,
+archive stream at the same position of the file), for every member geometry and sparse map, every buffer size,
+every client history and every script of short counts and `EINTR`s, the client observes exactly what it observes
+over the ideal window stream when the OS never splits a call; the spliced output and the line counter are the
+same, and the two iterators stay related (same `record_size`, `offset`, `state`, …; archive streams at the same
+position). -/
+theorem tar_member_stream_chunking_independent (B : Nat) (hB : 0 < B) (data : Bytes) (x : TarStrm IStream)
+    (y : TarStrm Ideal) (hr : TRel (Rel B data) x y) (ops : List Op) (o : OStream) (ln : Nat) (os : OS)
+    (h : noHard os.sc = true) :
+    (runOps (tarStream (fileStream B)) ⟨x, o, ln⟩ ops os).1 =
+      (runOps (tarStream (idealStream B data)) ⟨y, o, ln⟩ ops OS.full).1 ∧
+    (runOps (tarStream (fileStream B)) ⟨x, o, ln⟩ ops os).1 =
+      (runOps (tarStream (fileStream B)) ⟨x, o, ln⟩ ops OS.full).1 ∧
+    RC (TRel (Rel B data)) (runOps (tarStream (fileStream B)) ⟨x, o, ln⟩ ops os).2.1
+      (runOps (tarStream (idealStream B data)) ⟨y, o, ln⟩ ops OS.full).2.1 := by
+  have hf : noHard OS.full.sc = true := by simp [noHard, OS.full]
+  have hsim := tar_sim (file_sim B hB data)
+  obtain ⟨h1, h2⟩ := runOps_sim hsim ops ⟨x, o, ln⟩ ⟨y, o, ln⟩ os OS.full ⟨hr, rfl, rfl⟩ h hf
+  obtain ⟨h3, _⟩ := runOps_sim hsim ops ⟨x, o, ln⟩ ⟨y, o, ln⟩ OS.full OS.full ⟨hr, rfl, rfl⟩ hf hf
+  exact ⟨h1, h1.trans h3.symm, h2⟩
+
+/-- **`tar_member_run_chunking_independent`.** One archive member the way tar2sqfs drives the iterator, from the
+first byte of the input: `tar_open_stream`'s probe, `it_next` (reads the header block), `open_file_ro`, any client
+history on the member stream, dropping the stream, `it_next` (skips what is left of the record and the padding,
+reads the next header block / recognises the end of the archive).  For every input, member geometry, buffer
+size and script of short counts and `EINTR`s: both `it_next` results, every observation of the client, its
+output and the iterator's bookkeeping are those of the run over the ideal stream, and of the run in which every
+`read` completes in full. -/
+theorem tar_member_run_chunking_independent (B : Nat) (hB : 0 < B) (data : Bytes) (g : MemberGeom) (o : OStream)
+    (ops : List Op) (os : OS) (h : noHard os.sc = true) :
+    (tarMemberRun (fileStream B) (IStream.init data) g o ops os).1 =
+      (tarMemberRun (idealStream B data) ⟨0, 0⟩ g o ops OS.full).1 ∧
+    (tarMemberRun (fileStream B) (IStream.init data) g o ops os).2.1 =
+      (tarMemberRun (idealStream B data) ⟨0, 0⟩ g o ops OS.full).2.1 ∧
+    (tarMemberRun (fileStream B) (IStream.init data) g o ops os).2.2.1 =
+      (tarMemberRun (idealStream B data) ⟨0, 0⟩ g o ops OS.full).2.2.1 ∧
+    TItRel (Rel B data) (tarMemberRun (fileStream B) (IStream.init data) g o ops os).2.2.2.1
+      (tarMemberRun (idealStream B data) ⟨0, 0⟩ g o ops OS.full).2.2.2.1 ∧
+    (tarMemberRun (fileStream B) (IStream.init data) g o ops os).2.2.2.2.1 =
+      (tarMemberRun (idealStream B data) ⟨0, 0⟩ g o ops OS.full).2.2.2.2.1 ∧
+    (tarMemberRun (fileStream B) (IStream.init data) g o ops os).1 =
+      (tarMemberRun (fileStream B) (IStream.init data) g o ops OS.full).1 ∧
+    (tarMemberRun (fileStream B) (IStream.init data) g o ops os).2.1 =
+      (tarMemberRun (fileStream B) (IStream.init data) g o ops OS.full).2.1 ∧
+    (tarMemberRun (fileStream B) (IStream.init data) g o ops os).2.2.1 =
+      (tarMemberRun (fileStream B) (IStream.init data) g o ops OS.full).2.2.1 ∧
+    (tarMemberRun (fileStream B) (IStream.init data) g o ops os).2.2.2.2.1 =
+      (tarMemberRun (fileStream B) (IStream.init data) g o ops OS.full).2.2.2.2.1 := by
+  have hf : noHard OS.full.sc = true := by simp [noHard, OS.full]
+  obtain ⟨a1, a2, a3, a4, a5⟩ := tarMemberRun_sim (file_sim B hB data) (IStream.init data) ⟨0, 0⟩ g o ops os OS.full
+    (rel_init B data) h hf
+  obtain ⟨b1, b2, b3, _, b5⟩ := tarMemberRun_sim (file_sim B hB data) (IStream.init data) ⟨0, 0⟩ g o ops OS.full OS.full
+    (rel_init B data) hf hf
+  exact ⟨a1, a2, a3, a4, a5, a1.trans b1.symm, a2.trans b2.symm, a3.trans b3.symm, a5.trans b5.symm⟩
+
+/-- **`tar_member_run_decompressed_chunking_independent`.** The same member run when the archive is compressed
+(`tar_open_stream` wraps the input into a decompressing stream): for **every** codec. -/
+theorem tar_member_run_decompressed_chunking_independent {κ : Type} (C : Codec κ) (k0 : κ) (BX limit B : Nat)
+    (hB : 0 < B) (data : Bytes) (g : MemberGeom) (o : OStream) (ops : List Op) (os : OS) (h : noHard os.sc = true) :
+    (tarMemberRun (xfrmStream (fileStream B) C BX limit) ⟨IStream.init data, k0, 0, []⟩ g o ops os).1 =
+      (tarMemberRun (xfrmStream (fileStream B) C BX limit) ⟨IStream.init data, k0, 0, []⟩ g o ops OS.full).1 ∧
+    (tarMemberRun (xfrmStream (fileStream B) C BX limit) ⟨IStream.init data, k0, 0, []⟩ g o ops os).2.1 =
+      (tarMemberRun (xfrmStream (fileStream B) C BX limit) ⟨IStream.init data, k0, 0, []⟩ g o ops OS.full).2.1 ∧
+    (tarMemberRun (xfrmStream (fileStream B) C BX limit) ⟨IStream.init data, k0, 0, []⟩ g o ops os).2.2.1 =
+      (tarMemberRun (xfrmStream (fileStream B) C BX limit) ⟨IStream.init data, k0, 0, []⟩ g o ops OS.full).2.2.1 ∧
+    (tarMemberRun (xfrmStream (fileStream B) C BX limit) ⟨IStream.init data, k0, 0, []⟩ g o ops os).2.2.2.2.1 =
+      (tarMemberRun (xfrmStream (fileStream B) C BX limit) ⟨IStream.init data, k0, 0, []⟩ g o ops OS.full).2.2.2.2.1 := by
+  have hf : noHard OS.full.sc = true := by simp [noHard, OS.full]
+  have hsim := xfrm_sim (file_sim B hB data) C BX limit
+  have hr0 : XRel (Rel B data) (⟨IStream.init data, k0, 0, []⟩ : XStream IStream κ) ⟨⟨0, 0⟩, k0, 0, []⟩ :=
+    ⟨rel_init B data, rfl, rfl, rfl⟩
+  obtain ⟨a1, a2, a3, _, a5⟩ := tarMemberRun_sim hsim _ _ g o ops os OS.full hr0 h hf
+  obtain ⟨b1, b2, b3, _, b5⟩ := tarMemberRun_sim hsim _ _ g o ops OS.full OS.full hr0 hf hf
+  exact ⟨a1.trans b1.symm, a2.trans b2.symm, a3.trans b3.symm, a5.trans b5.symm⟩
+
 /-! ### non-vacuity: concrete scripts with short counts, `EINTR` bursts and hard errors -/
 
 -- 5 bytes at offset 2 in three pieces with EINTRs in between
@@ -281,11 +408,11 @@ example : (writeAt [0,1,2,3,4] 5 7 [170,187,204] ⟨[.part 0, .eintr], []⟩).2.
 -- a write that writes nothing is an error
 example : (writeAt [0,1,2,3,4] 5 1 [170,187,204] ⟨[.part 0, .zero], []⟩).1 = .oob := by decide
 -- sparse and non-sparse ostream produce the same file
-example : (runOOps 0 ⟨[], 0, 0, false⟩ [.data [1,2], .hole 5, .data [3], .flush] ⟨[.part 0, .eintr], []⟩).2.1.out =
-    (runOOps 0 ⟨[], 0, 0, true⟩ [.data [1,2], .hole 5, .data [3], .flush] ⟨[.part 0, .eintr, .part 2], []⟩).2.1.out := by decide
+example : (runOOps 0 (OStream.init false) [.data [1,2], .hole 5, .data [3], .flush] ⟨[.part 0, .eintr], []⟩).2.1.out =
+    (runOOps 0 (OStream.init true) [.data [1,2], .hole 5, .data [3], .flush] ⟨[.part 0, .eintr, .part 2], []⟩).2.1.out := by decide
 example : noHard [.part 0, .eintr, .part 1, .eintr, .eintr] = true := by decide
 -- "ab\ncd\r\n\ne" through a 4-byte buffer fed one or two bytes at a time, with EINTRs: window, read, three lines, EOF
-example : (runOps (fileStream 4) ⟨IStream.init [97,98,10,99,100,13,10,10,101], ⟨[], 0, 0, false⟩, 0⟩
+example : (runOps (fileStream 4) ⟨IStream.init [97,98,10,99,100,13,10,10,101], OStream.init false, 0⟩
     [.get 0, .adv 1, .get 3, .read 2, .line 7, .line 7, .line 7] ⟨[.part 0, .eintr, .part 0, .part 1], []⟩).1 =
     [.get .ok [97,98,10,99], .adv, .get .ok [98,10,99], .read (.n [98,10]), .line (.line [99,100]) 0,
      .line (.line [101]) 1, .line .eof 1] := by decide
@@ -294,5 +421,33 @@ example : Rel 4 [1,2,3] (IStream.init [1,2,3]) ⟨0, 0⟩ ∧ Iv [1,2,3] ⟨0, 0
 -- the scanner on " ab \r\n\n x" with LTRIM|RTRIM|SKIP_EMPTY: "ab", then "x" (one empty line counted), then end
 example : nextLine 7 [32,97,98,32,13,10,10,32,120] 0 = (some [97,98], [10,32,120], 0) ∧
     nextLine 7 [10,32,120] 0 = (some [120], [], 1) ∧ nextLine 7 [] 1 = (none, [], 1) := by decide
+-- a sparse member (real size 9, data regions [2,5) and [7,9), record of 5 bytes + 3 unrelated bytes behind it) read
+-- through a 4-byte buffer fed one byte at a time with EINTRs: holes are zeros, the data regions are the record's bytes,
+-- then end-of-data; afterwards the iterator has no record bytes left
+example : (runOps (tarStream (fileStream 4))
+      ⟨tarOpen ⟨IStream.init [11,12,13,14,15,99,98,97], .ok, false, 5, 9, 0, 3, [⟨2,3⟩,⟨7,2⟩], false⟩, OStream.init false, 0⟩
+      [.read 4, .get 100, .read 100, .get 1] ⟨[.part 0, .eintr, .part 0, .eintr, .eintr, .part 0], []⟩).1 =
+    [.read (.n [0,0,11,12]), .get .ok [13], .read (.n [13,0,0,14,15]), .get .eof []] := by decide
+example : ((runOps (tarStream (fileStream 4))
+      ⟨tarOpen ⟨IStream.init [11,12,13,14,15,99,98,97], .ok, false, 5, 9, 0, 3, [⟨2,3⟩,⟨7,2⟩], false⟩, OStream.init false, 0⟩
+      [.read 4, .get 100, .read 100, .get 1] ⟨[.part 0, .eintr, .part 0], []⟩).2.1.s.it.recordSize,
+    (runOps (tarStream (fileStream 4))
+      ⟨tarOpen ⟨IStream.init [11,12,13,14,15,99,98,97], .ok, false, 5, 9, 0, 3, [⟨2,3⟩,⟨7,2⟩], false⟩, OStream.init false, 0⟩
+      [.read 4, .get 100, .read 100, .get 1] ⟨[.part 0, .eintr, .part 0], []⟩).2.1.s.alive) = (0, false) := by decide
+-- the `TRel` hypothesis of `tar_member_stream_chunking_independent` is satisfiable
+example : TRel (Rel 4 [1,2,3]) (tarOpen ((TarIt.init (IStream.init [1,2,3])).setMember ⟨3, 3, []⟩))
+    (tarOpen ((TarIt.init (⟨0, 0⟩ : Ideal)).setMember ⟨3, 3, []⟩)) :=
+  ⟨⟨rel_init 4 [1,2,3], rfl, rfl, rfl, rfl, rfl, rfl, rfl, rfl⟩, rfl, rfl, rfl⟩
+-- a record that ends early is reported as corrupted, not as a short member
+example : (runOps (tarStream (fileStream 4)) ⟨tarOpen ⟨IStream.init [1,2], .ok, false, 5, 5, 0, 3, [], false⟩, OStream.init false, 0⟩
+      [.read 5] ⟨[.part 0], []⟩).1 = [.read (.fail .corrupted)] := by decide
+-- after a failed `ftruncate` the descriptor stays ahead of the end of the file and the hole stays pending (unix.c:73-84)
+example : (runOOpsAll (OStream.init false) [.data [1], .hole 3, .flush, .flush] ⟨[.part 0, .err], []⟩).1 = [.ok, .ok, .io, .ok] ∧
+    (runOOpsAll (OStream.init false) [.data [1], .hole 3, .flush, .flush] ⟨[.part 0, .err], []⟩).2.1.out = [1,0,0,0,0,0,0] := by decide
+-- skipping past the end of the input is an error (stream_api.c:56-60), whatever the chunking; skipping exactly to it is not
+example : (runOps (fileStream 4) ⟨IStream.init [1,2,3,4,5,6], OStream.init false, 0⟩ [.skip 6, .skip 1]
+      ⟨[.part 0, .eintr, .part 1], []⟩).1 = [.skip .ok, .skip .oob] ∧
+    (runOps (fileStream 4) ⟨IStream.init [1,2,3,4,5,6], OStream.init false, 0⟩ [.skip 7] ⟨[.part 0, .eintr], []⟩).1 = [.skip .oob] := by
+  decide
 
 end Sqfs.C12
